@@ -26,7 +26,7 @@ RULE = (
     "level in {surface, 1/4, 1/2, top} and a dense random source. The solver is run at n and 4n layers (halo=0, double) and the "
     "per-mode transfer functions fft2(conc)/fft2(q0), fft2(flux)/fft2(q0) are compared with the Riccati/DOP853 reference of the "
     "continuous BVP. Admitted modes: r = max_i |T|dz_i^2/Kz <= 1 on the coarse grid, sum Re(lambda)dz <= 18 over the column and <= 8 up to the output height; components on the unpaired Nyquist row/column of even grids are compared with the real-part combination (H(k)+conj(H(k')))/2 of the reference (the relative rounding error of "
-    "the decayed response at height z is ~ eps*exp(2*growth(z))). Assertions: (a) E(n) <= 6*delta(n) and E(4n) < E(n) (or both < 1e-6) over all admitted modes; (b) rate "
+    "the decayed response at height z is ~ eps*exp(2*growth(z))). Assertions: (a) E(n) <= 6*delta(n), E(4n) <= 6*delta(4n), and E(4n) < E(n) unless E(4n) <= delta(4n) (a coarse-grid error can be accidentally small) or both < 1e-6, over all admitted modes; (b) rate "
     "E(4n) <= max(E(n)/2.5, 1e-6) over admitted modes with r <= 0.5 on grids with delta <= 1 and at least 16 layers (E = max over the mode set of the "
     "larger of the relative conc- and flux-transfer errors). Non-trivial = >= 2 admitted modes, Kz(top)/Kz(z0) >= 2 and E(n) > 1e-5; "
     "distinct = canonical JSON."
@@ -36,7 +36,7 @@ ASSUMPTIONS = [
     "reference accuracy: DOP853 rtol 1e-11 / atol 1e-14",
     "per-mode relative errors are only asserted where the shooting growth up to the output height is <= e^8, i.e. rounding <= ~1e-8 relative (calibration: at growth 17-18 to the top node the relative rounding error reaches 0.4)",
 ]
-TOLERANCES = {"a": "E(n) <= 6*delta, E(4n) < E(n) or both < 1e-6", "b": "E(n)/E(4n) >= 2.5 (r <= 0.5, delta <= 1, n >= 16)"}
+TOLERANCES = {"a": "E(n) <= 6*delta(n), E(4n) <= 6*delta(4n); E(4n) < E(n) or E(4n) <= delta(4n) or both < 1e-6 (calibration: E/delta max 2.64, E(4n)/delta(4n) median 0.14, p99 1.13 over 2000 cases)", "b": "E(n)/E(4n) >= 2.5 (r <= 0.5, delta <= 1, n >= 16)"}
 BUDGET = {"quick": dict(examples=110, shards=1), "thorough": dict(examples=400, shards=16)}
 NO_SHRINK = {"quick": False}
 MAX_MODES = 16
@@ -216,8 +216,10 @@ def check_case(c):
 
     E_all, E_half = [], []
     n_nyq = 0
+    delta4 = None
     for n in (n0, 4 * n0):
         z = zgrid(gk, n, z0, ztop, zm)
+        delta4 = float(np.max(np.diff(z) / z[:-1]))
         prof = tuple(f(z) for f in fn)
         lvl = int(round(c["lvl_frac"] * n))
         # the level is requested together with two others, in an order whose sorting permutation is a 3-cycle:
@@ -251,12 +253,19 @@ def check_case(c):
 
     n_half = sum(1 for s in sel if s[2] <= 0.5)
     out.detail = {"delta": delta, "E_all": E_all, "E_half": E_half, "admitted": len(sel), "admitted_r<=0.5": n_half,
-                  "n0": n0, "rmax": max(s[2] for s in sel)}
+                  "n0": n0, "rmax": max(s[2] for s in sel), "delta4": delta4}
     if not E_all[0] <= 6.0 * delta:
         out.bad(f"error on the resolving grid {E_all[0]:.3e} exceeds 6 x relative layer thickness {delta:.3e} "
                 f"({gk} grid, n={n0}, family {c['fam']})")
-    if not (E_all[1] < E_all[0] or max(E_all) < 1e-6):
-        out.bad(f"error does not decrease under refinement: {E_all[0]:.3e} at n={n0} -> {E_all[1]:.3e} at n={4 * n0} ({gk} grid)")
+    if not E_all[1] <= 6.0 * delta4:
+        out.bad(f"error on the refined grid {E_all[1]:.3e} exceeds 6 x its relative layer thickness {delta4:.3e} "
+                f"({gk} grid, n={4 * n0}, family {c['fam']})")
+    # refinement must not make things worse - except that a coarse-grid error can be accidentally small (the error of a
+    # component changes sign between two grids: 4.9e-3 at n=8, 4.8e-2 at 16, 3.0e-2 at 32, 1.6e-2 at 64 seen on a correct
+    # tree), so a larger fine-grid error is accepted while it is below one relative layer thickness of the fine grid
+    if not (E_all[1] < E_all[0] or E_all[1] <= delta4 or max(E_all) < 1e-6):
+        out.bad(f"error does not decrease under refinement: {E_all[0]:.3e} at n={n0} -> {E_all[1]:.3e} at n={4 * n0} "
+                f"({gk} grid; relative layer thickness {delta:.3e} -> {delta4:.3e})")
     if delta <= 1.0 and n_half >= 1 and n0 >= 16:
         out.label("rate-asserted")
         if not E_half[1] <= max(E_half[0] / 2.5, 1e-6):
